@@ -35,10 +35,27 @@ type Input struct {
 
 var contexts = []string{"fresh", "fresh2", "underscore", "copy", "copycopy"}
 
-var allCases []Input
-var nontrivialCount int
+// thoroughContexts adds: a Copy() of a runtime on which every row's probe
+// (all distinguishing calls) has already run, and a fresh runtime created
+// after several others (including an underscore-enabled one) exist.
+var thoroughContexts = []string{"fresh", "fresh2", "underscore", "copy", "copycopy", "copy-used", "fresh-late"}
 
-func buildCases() {
+type caseList struct {
+	cases      []Input
+	nontrivial int
+}
+
+var lists = map[string]*caseList{}
+
+func buildCases(tier string) *caseList {
+	allCases := []Input{}
+	nontrivialCount := 0
+	contexts := contexts
+	behav := []string{"fresh", "copy", "underscore"}
+	if tier == "thorough" {
+		contexts = thoroughContexts
+		behav = thoroughContexts
+	}
 	for _, ctx := range contexts {
 		for i := range es5table.Rows {
 			allCases = append(allCases, Input{ctx, "row", es5table.Rows[i].Key()})
@@ -55,17 +72,29 @@ func buildCases() {
 			nontrivialCount++
 		}
 	}
-	for _, ctx := range []string{"fresh", "copy", "underscore"} {
+	for _, ctx := range behav {
 		for i := range es5table.Rows {
 			allCases = append(allCases, Input{ctx, "behav", es5table.Rows[i].Key()})
 			nontrivialCount++
 		}
 	}
 	allCases = append(allCases, Input{"all", "dump", "pristine"}, Input{"all", "dump", "prelude"}, Input{"all", "dump", "used"})
+	return &caseList{allCases, nontrivialCount}
+}
+
+func listFor(tier string) *caseList {
+	if tier != "thorough" {
+		tier = "quick"
+	}
+	if l, ok := lists[tier]; ok {
+		return l
+	}
+	l := buildCases(tier)
+	lists[tier] = l
+	return l
 }
 
 func init() {
-	buildCases()
 	run.Register(&run.Check{
 		ID: "C14",
 		Rule: "one case per (context, table row) plus owner-level, for-in, dynamic-function and whole-graph dump cases; the table is enumerated exhaustively in every context (the seed only permutes evaluation order on the shared per-context runtime); " +
@@ -79,11 +108,12 @@ func init() {
 			"shape equality between contexts is the textual equality of a breadth-first dump of everything reachable from the global object (own names in reported order, descriptors, classes, prototype identity by first-visit ordinal, primitive values)",
 		},
 		Exhaustive: true,
-		Floor:      func(tier string) int { return nontrivialCount },
-		Cases:      func(tier string, seed uint64) int { return len(allCases) },
+		Floor:      func(tier string) int { return listFor(tier).nontrivial },
+		Cases:      func(tier string, seed uint64) int { return len(listFor(tier).cases) },
 		Exec: func(c *run.Ctx, i int) {
-			perm := permFor(c.Seed)
-			checkOne(c, allCases[perm[i]], false)
+			l := listFor(c.Tier)
+			perm := permFor(c.Seed, len(l.cases))
+			checkOne(c, l.cases[perm[i]], false)
 		},
 		Replay:       func(c *run.Ctx, raw json.RawMessage) { var in Input; mustUnmarshal(raw, &in); checkOne(c, in, true) },
 		CaseTimeoutS: 120,
@@ -91,14 +121,15 @@ func init() {
 	registerMatchers()
 }
 
-var permCache = map[uint64][]int{}
+var permCache = map[[2]uint64][]int{}
 
-func permFor(seed uint64) []int {
-	if p, ok := permCache[seed]; ok {
+func permFor(seed uint64, n int) []int {
+	k := [2]uint64{seed, uint64(n)}
+	if p, ok := permCache[k]; ok {
 		return p
 	}
-	p := gen.New(seed, "C14/order", 0).Perm(len(allCases))
-	permCache[seed] = p
+	p := gen.New(seed, "C14/order", 0).Perm(n)
+	permCache[k] = p
 	return p
 }
 
@@ -121,9 +152,23 @@ func hostFn(call otto.FunctionCall) otto.Value {
 
 // newBase creates the base runtime of a context ("copy" contexts copy it).
 func newBase(ctx string) *otto.Otto {
-	if ctx == "underscore" {
+	switch ctx {
+	case "underscore":
 		underscore.Enable()
 		defer underscore.Disable()
+	case "copy-used":
+		vm := otto.New()
+		for i := range es5table.Rows {
+			r := &es5table.Rows[i]
+			setZone(r.TZ)
+			ox.Run(vm, rowProbe(r))
+		}
+		setZone(0)
+		return vm
+	case "fresh-late":
+		otto.New()
+		newBase("underscore").Copy()
+		otto.New().Copy()
 	}
 	return otto.New()
 }
@@ -131,7 +176,7 @@ func newBase(ctx string) *otto.Otto {
 // derive turns a base runtime into the runtime of the context.
 func derive(ctx string, base *otto.Otto) *otto.Otto {
 	switch ctx {
-	case "copy":
+	case "copy", "copy-used":
 		return base.Copy()
 	case "copycopy":
 		return base.Copy().Copy()
